@@ -305,6 +305,8 @@ class SArr:
 
     def astype(self, dt, copy=True):
         dt = as_dtype(dt)
+        if copy is False and dt == self.dtype:
+            return self           # numpy hands back the array itself: later in-place writes reach the caller's data
         r = SArr.new([_cast_scalar(v, dt) for v in self.flat_list()], self.shape_cap, self.n, dt)
         r.forder = self.forder        # astype(order='K') keeps the layout
         return r
